@@ -89,8 +89,11 @@ def _non_holding(ctx, repo) -> None:
             it = peval.Interp(resolver=peval.repo_resolver(repo), native_types=(_RepStatement, _RepTest, _RepVerification, _RepResult), externs={"OrderedSet": lambda x=(): _OSet(x)})
             try:
                 it.run_function(fn, [_RepTest([first, second, third]), _RepResult(fmap, emap)], {}, repo.module(AG))
-            except (peval.Undecided, peval.Raises) as exc:
+            except peval.Undecided as exc:
                 ctx.undecide("C21.non-holding", fn, f"{label} {exc}")
+                continue
+            except peval.Raises as exc:
+                ctx.fail("C21.non-holding", fn, f"{label}: removing the flagged assertions raises {exc.name} ({exc.detail[:60]}): positions are deleted in an order that shifts the ones still to delete", stmt=label)
                 continue
             want = [n for i, n in enumerate(names) if i not in failed and i not in error]
             ok = second.assertions == want and first.assertions == ["keep"] and third.assertions == ["b0"]
